@@ -439,6 +439,9 @@ func (ev *evaluator) ident(name string) SV {
 		return SV{T(arrSort(SInt, SBool), "((as const (Array Int Bool)) false)"), nil}
 	case "zeroHdr":
 		return SV{T(SHdr, "zeroHdr"), nil}
+	case "ctxBackground":
+		// the value context.Background() returns (a context that is never cancelled)
+		return SV{ev.fc.decls.constant("ctxBackground", SInt), nil}
 	case "panicking":
 		p, ok := ev.curState().cells[keyPanicking].(Term)
 		if !ok {
